@@ -368,3 +368,54 @@ def r10_13(rep):
     refusing edges into blocklisted items dropped `Payload` from the bindings in a seeded change (E0425)."""
     import c09
     c09.r9_6(rep)
+
+
+@RULES.rule("R10.14", "`--flexarray-dst` never gives an opaque type, or a use of one, the `FAM` parameter", floor=4)
+def r10_14(rep):
+    """An opaque struct is a blob: it has no flexible array member to be generic over.  Three places decide about the `FAM` parameter
+    and each has to look at opacity first: the definition (`CompInfo::codegen`), the use as the last member of another struct
+    (`FieldData::codegen`, `#ty<FAM>`), and the search for a nested flexible array (`CompFields::flex_array_member`).  Before the fix
+    `struct Inner { int len; char data[]; }` with `--opaque-type Inner --flexarray-dst` was `pub struct Inner<FAM: ?Sized = ..> {
+    _bindgen_opaque_blob: u32 }` (E0392) and `struct Outer { int tag; struct Inner in; }` carried `in_: Inner<FAM>`."""
+    import qq
+    prog = rep.prog
+
+    def opaque_negated(b, node):
+        for a, pol, g in qq.guard_atoms(b, node):
+            if not pol and "is_opaque" in a:
+                return True
+            if not pol and strip(g).get("k") == "Local":
+                init = b.local_init(strip(g)["id"])
+                if init is not None and "is_opaque" in b.canon(init, 6):
+                    return True
+        return False
+    # (a) the definition
+    b = rep.need(prog.impl_fn("codegen::CodeGenerator", "ir::comp::CompInfo", "codegen"), "<CompInfo as CodeGenerator>::codegen")
+    calls = b.calls(lambda x: x["k"] == "MCall" and (x.get("callee") or x.get("resolved") or "").endswith("CompInfo::flex_array_member"))
+    rep.need(calls, "CompInfo::codegen asks flex_array_member")
+    for c in calls:
+        ok = opaque_negated(b, c)
+        rep.check(ok, "fam-not-for-opaque@CompInfo::codegen", "asked only for non-opaque items" if ok else
+                  "the FAM generic of the definition is decided without looking at `is_opaque`: the blob of an opaque struct gets an unused "
+                  "type parameter (E0392)", b.loc(c))
+    # (b) the use
+    n = 0
+    for p, fb in sorted(prog.bodies.items()):
+        if "codegen" not in p:
+            continue
+        for q in qq.quote_sites(fb):
+            t_ = q.tokens
+            if any(t_[i].startswith("#") and t_[i + 1] == "<" and t_[i + 2] == "FAM" for i in range(len(t_) - 2)):
+                n += 1
+                ok = opaque_negated(fb, q.root)
+                rep.check(ok, "fam-not-for-opaque@use%s" % ("" if n == 1 else "#%d" % (n - 1)), "the member type is parameterised only when it is not opaque" if ok else
+                          "`#ty<FAM>` is written for a member whose type may be opaque: the blob takes no generic argument (E0107)", q.loc())
+    rep.need(n >= 1, "`#ty<FAM>` emission sites")
+    # (c) the search
+    fm = rep.need(prog.fn("ir::comp::CompFields::flex_array_member"), "CompFields::flex_array_member")
+    rec = [c for c in fm.calls(lambda x: x["k"] == "MCall" and (x.get("callee") or x.get("resolved") or "").endswith("CompInfo::flex_array_member"))]
+    rep.need(rec, "the nested search in CompFields::flex_array_member")
+    for c in rec:
+        ok = opaque_negated(fm, c)
+        rep.check(ok, "fam-not-for-opaque@flex_array_member", "an opaque member type ends the search" if ok else
+                  "the nested search descends into a member type without asking whether it is opaque", fm.loc(c))
